@@ -52,6 +52,80 @@ def scenarios(rnd, tier):
     return out
 
 
+TAGS_AT = {"beacon": 36, "probe_resp": 36, "assoc_resp": 30, "reassoc_resp": 30, "probe_req": 24, "assoc_req": 28, "reassoc_req": 34, "auth": 30, "deauth": 26, "disassoc": 26}
+
+
+def elements(kind, dump_hex):
+    b = bytes.fromhex(dump_hex)[TAGS_AT[kind]:]
+    out = []
+    i = 0
+    while i + 2 <= len(b) and i + 2 + b[i + 1] <= len(b):
+        out.append(bytes(b[i:i + 2 + b[i + 1]]))
+        i += 2 + b[i + 1]
+    return out
+
+
+def search_failing_input(ctx, exe, lines, c_outs, m_outs):
+    """After a correspondence break under fault injection: look for a line on which the IMPLEMENTATION ITSELF breaks the
+    property, judged on implementation outputs only - a call whose allocation was refused must answer with an error or
+    with exactly its fault-free answer (parsers); a generator history that reports success everywhere must have produced
+    the fault-free frame, and one whose last call reports failure must still hold every element it held before that call."""
+    import diffrun
+    import re
+    nofault = getattr(c14.fault_lines, "nofault", {})
+    found = 0
+    pend = []
+    for l, c, m in zip(lines, c_outs, m_outs):
+        if c is None or c.startswith(("CRASH", "SKIPPED")) or c == fw.split_model(m)[0]:
+            continue
+        inner = l.split(" ", 4)[4]
+        base = (nofault.get(inner) or "").split(" || ")[0]
+        cc = c.split(" || ")[0]
+        why = None
+        if inner.startswith("mp ") and " # " in base:
+            for a, b in zip(cc.split(" # "), base.split(" # ")):
+                if a != b and not a.endswith("=err-12") and a != "cls=err":
+                    why = "with allocation %s refused, `%s` answers %s - neither an error nor its fault-free answer %s" % (l.split()[1], fw.clip(inner, 80), fw.clip(a, 120), fw.clip(b, 120))
+                    break
+        elif inner.startswith("eap ") and base.startswith("cls=ok"):
+            if cc != "cls=err" and cc != base and not (cc.split(" data=")[0] == base.split(" data=")[0] and cc.endswith("data=err-12")):
+                why = "with allocation %s refused, the EAPOL extraction answers %s instead of an error or %s" % (l.split()[1], fw.clip(cc, 160), fw.clip(base, 160))
+        elif inner.startswith("gen "):
+            g = re.match(r"ret=(-?\d+) edit=(-?\d+) len=(\d+) dump=(\d+)/([0-9a-f]*)", cc)
+            gb = re.match(r"ret=(-?\d+) edit=(-?\d+) len=(\d+) dump=(\d+)/([0-9a-f]*)", base)
+            kind = inner.split()[1]
+            if g and gb and g.group(1) == "0" and g.group(2) == "0" and gb.group(1) == "0" and gb.group(2) == "0" and g.group(5) != gb.group(5) and " ops=" in inner and "," not in inner.split(" ops=")[1].split()[0]:
+                why = "with allocation %s refused every call of `%s` reports success, but the frame differs from the fault-free one: a tag that could not be stored is reported as stored, or stored data was lost" % (l.split()[1], fw.clip(inner, 100))
+            elif g and g.group(1) == "0" and int(g.group(2)) < 0 and kind in TAGS_AT and " ops=" in inner:
+                pend.append((l, cc, inner, kind, g.group(5)))
+        if why:
+            found += 1
+            if found <= 3:
+                ctx.violation("S-alloc/fault-answer:" + l[:300], why, {"kind": "line", "suite": "S-alloc/faults", "line": l, "observed": c, "expected": "an error indication, or the fault-free result: " + base[:300]})
+    if pend and found < 3:
+        # histories whose LAST call reports failure: the object before that call is the fault-free object of the shorter history
+        sib = []
+        for l, cc, inner, kind, dump in pend[:40]:
+            head, ops = inner.split(" ops=")
+            ops, rest = (ops.split(" ", 1) + [""])[:2]
+            shorter = ",".join(ops.split(",")[:-1])
+            sib.append("alloc none 0 -1 " + head + (" ops=" + shorter if shorter else "") + (" " + rest if rest else ""))
+        so, _ = diffrun.run_harness_all(exe, sib)
+        for (l, cc, inner, kind, dump), o in zip(pend[:40], so):
+            gb = re.match(r"ret=(-?\d+) edit=(-?\d+) len=(\d+) dump=(\d+)/([0-9a-f]*)", (o or ""))
+            if not gb or gb.group(1) != "0":
+                continue
+            before, after = elements(kind, gb.group(5)), elements(kind, dump)
+            lost = [e for e in before if before.count(e) > after.count(e)]
+            if lost:
+                found += 1
+                ctx.violation("S-alloc/fault-loss:" + l[:300], "with allocation %s refused the last call of `%s` reports failure, and element %s that the object held before the call is gone" % (l.split()[1], fw.clip(inner, 100), lost[0].hex()),
+                              {"kind": "line", "suite": "S-alloc/faults", "line": l, "observed": cc, "expected": "a failed call loses no previously stored data (elements before: %s)" % " ".join(e.hex() for e in before)[:400]})
+                if found >= 3:
+                    break
+    return found
+
+
 def check(ctx):
     ctx.rule = ("scenarios: every generator with tag / detail edits, tag edit histories, every parser on accepted frames with and without radiotap, data and EAPOL extraction; for each scenario the number N of library allocation requests is "
                 "measured in a fault-free run, then EVERY index k < N is failed once (single failure) and as failure of all requests from k on (exhaustive per scenario), by a link-time malloc/realloc wrapper; "
@@ -76,6 +150,8 @@ def check(ctx):
         return "tgchkf %s @ %s" % (inner.split(" ", 1)[1], c.split(" || ")[0])
 
     c_outs, m_outs, nd = fw.run_suite(ctx, exe, "S-alloc/faults", lines, "allocation failure", relcheck=rel)
+    if nd:
+        search_failing_input(ctx, exe, lines, c_outs, m_outs)
     bad = 0
     fired = 0
     for l, c in zip(lines, c_outs):
@@ -92,5 +168,25 @@ def check(ctx):
     fw.conclude(ctx, broken)
 
 
+class _Sink:
+    def __init__(self):
+        self.v = []
+
+    def violation(self, key, msg, rp, found_input=True):
+        self.v.append(msg)
+
+
 def replay(rp):
+    exp = rp.get("expected", "")
+    if rp.get("kind") == "line" and (exp.startswith("an error indication") or exp.startswith("a failed call loses")):
+        import diffrun
+        exe, err = diffrun.build_harness("asan")
+        line = rp["line"]
+        inner = line.split(" ", 4)[4]
+        co, _ = diffrun.run_harness_all(exe, [line, "alloc none 0 -1 " + inner])
+        c14.fault_lines.nofault = {inner: co[1]}
+        mo = diffrun.run_driver([line])
+        sink = _Sink()
+        search_failing_input(sink, exe, [line], [co[0]], mo)
+        return not sink.v, (sink.v[0] if sink.v else "%s -> %s" % (line[:200], (co[0] or "")[:200]))
     return c14.replay(rp)
